@@ -624,3 +624,51 @@ def c16_1(cx):
             cx.check(not cyc, "lock order %s -> %s is not part of a cycle" % (a, k), sites[0], {"edges": sorted("%s->%s" % e for e in edges)}, key="edge %s->%s" % (a, k))
     allowed = {("SYNC", "DG"), ("INTERN", "PAGES"), ("INTERN", "REVQ"), ("INTERN", "DG"), ("INTERN", "SYNC")}
     cx.check(("DG", "SYNC") not in edges, "the dependency-graph lock is never held while taking a sync-table lock", (edges.get(("DG", "SYNC")) or [None])[0], key="no DG->SYNC", body=cx.fn(RT + r"block$"))
+
+
+@ob("C17.5", ["C17", "C19", "C16"], "if the claim of a key is looked up, recorded or released in a shard (or under a key) other than the one derived from that key, two threads can both hold the claim, or a release misses the entry and waiters are never woken", kind="FLOW (key -> hash -> shard -> entry agreement)")
+def c17_5(cx):
+    """SyncTable::{try_claim, peek_claim, mark_as_transfer_target}: hash = FxBuildHasher.hash_one(key_index); the shard locked is shard_for(hash); the table lookup uses that hash and an equality closure comparing state.key with the key asked; a vacant entry is filled with SyncState{key: key_index, id: Thread(current), flags false}; the ClaimGuard records (key_index, shard) of that lookup - in try_claim_transferred the key of the occupied entry and the shard passed in. shard_index depends only on the hash and the table size; shard_for indexes with it."""
+    H = r"<FxBuildHasher as std::hash::BuildHasher>::hash_one\(FxBuildHasher\{\}, KEY\)"
+    shard_forms = {}
+    for name, key in (("SyncTable::try_claim", "$4"), ("SyncTable::peek_claim", "$3"), ("SyncTable::mark_as_transfer_target", "$2")):
+        b = cx.fn(SY + name + r"$")
+        h = H.replace("KEY", re.escape(key))
+        lk = cx.one_call(b, r"^parking_lot::lock_api::Mutex::<R, T>::lock$", "shard lock in " + name)
+        SHARD = r"(function::sync::SyncTable::shard_for\(\$1, " + h + r"\)|transmute\(\$1\.shards\.0\.pointer\)\[function::sync::SyncTable::shard_index\(\$1, " + h + r"\)\])"
+        cx.flow(b, cx.arg(lk, 0), [r"^" + SHARD + r"\.syncs$"], [r"shards\.0\.pointer\)\[const:"], "%s: the lock taken is the shard chosen by the hash of the key asked" % name, lk)
+        look = cx.one_call(b, r"^hashbrown::HashTable::<T, A>::(entry|find_entry|find_mut)$", "table lookup in " + name)
+        la = cx.args(look)
+        cx.flow(b, la[0], [r"^parking_lot::lock_api::Mutex::<R, T>::lock\(" + SHARD + r"\.syncs\)$"], [], "%s: the lookup runs on the locked shard" % name, look)
+        cx.flow(b, la[1], [r"^" + h + r"$"], [r"^const:"], "%s: under the key's hash" % name, look)
+        cx.flow(b, la[2], [r"^closure:.*\[" + re.escape(key) + r"\]$"], [], "%s: comparing entries with the key asked" % name, look)
+        m = re.match(r"^closure:([^\[\]]+)\[", la[2])
+        eqc = cx.facts.body(m.group(1)) if m else None
+        cx.require(eqc is not None, "%s: equality closure" % name)
+        cx.flow(eqc, eqc.origin_local(0), [r"^<Id as std::cmp::PartialEq>::eq\(\$2\.key, \$1\.0\)$", r"^<Id as std::cmp::PartialEq>::eq\(\$1\.0, \$2\.key\)$"], [r"^const:", r"id::Id::(index|generation)\("], "%s: an entry matches iff its key (index AND generation) equals the key asked" % name)
+        shard_forms[name] = cx.arg(lk, 0).replace(key, "KEY")
+    cx.check(len(set(shard_forms.values())) == 1, "all entry points derive the shard from the key in the same way", None, {"forms": shard_forms}, key="shard-agreement", body=cx.fn(SY + r"SyncTable::peek_claim$"))
+    t = cx.fn(SY + r"SyncTable::try_claim$")
+    h4 = H.replace("KEY", r"\$4")
+    st = cx.one(t.aggregates(r"^function::sync::SyncState$"), "SyncState aggregate in try_claim")
+    cx.flow(t, t._origin_def(st, "assign", st.node(), 0, None, ()), [r"^SyncState\{key: \$4, id: SyncOwner::Thread\{0: std::thread::Thread::id\(std::thread::current\(\)\)\}, anyone_waiting: const:0, is_transfer_target: const:0, claimed_twice: const:0\}$"], [r"key: (?!\$4)"], "a fresh claim records the key asked, this thread, and clear flags", st)
+    g = cx.one(t.aggregates(r"^function::sync::ClaimGuard$"), "ClaimGuard aggregate in try_claim")
+    go = t._origin_def(g, "assign", g.node(), 0, None, ())
+    cx.flow(t, go, [r"\bkey_index: \$4,"], [r"\bkey_index: (?!\$4,)"], "the guard releases the key it claimed", g)
+    lk4 = cx.arg(cx.one_call(t, r"^parking_lot::lock_api::Mutex::<R, T>::lock$", "lock"), 0)
+    cx.require(lk4.endswith(".syncs"), "lock operand is <shard>.syncs")
+    cx.check(("shard: " + lk4[:-len(".syncs")]) in go, "the guard releases in the shard it locked", g, {"locked": lk4, "guard": go[:300]}, key="guard-shard")
+    hc = cx.closure_passed_to(t, r"^hashbrown::HashTable::<T, A>::entry$", which=lambda c: bool(c.calls(r"BuildHasher::hash_one$")))
+    cx.flow(hc, hc.origin_local(0), [r"^<FxBuildHasher as std::hash::BuildHasher>::hash_one\(FxBuildHasher\{\}, \$2\.key\)$"], [r"^const:"], "rehashing uses the same hash function on the stored key")
+    tt = cx.fn(SY + r"SyncTable::try_claim_transferred$")
+    gs = cx.sites(tt.aggregates(r"^function::sync::ClaimGuard$"), 2, "ClaimGuard aggregates in try_claim_transferred")
+    for g in gs:
+        go = tt._origin_def(g, "assign", g.node(), 0, None, ())
+        cx.flow(tt, go, [r"\bkey_index: hashbrown::hash_table::OccupiedEntry::<'a, T, A>::get\(\$4\)\.key,"], [r"\bkey_index: const:"], "a re-claimed transferred query is released under the entry's key", g)
+        cx.flow(tt, go, [r"\bshard: \$5[,}]"], [r"\bshard: (?!\$5[,}])"], "in the shard it was found in", g)
+    call = cx.one_call(t, SY + r"SyncTable::try_claim_transferred$", "try_claim_transferred call")
+    cx.check(cx.arg(call, 4) == lk4[:-len(".syncs")], "try_claim hands over the shard it locked", call, {"arg": cx.arg(call, 4), "locked": lk4}, key="handover-shard")
+    si = cx.fn(SY + r"SyncTable::shard_index$")
+    cx.flow(si, si.origin_local(0), [r"^\(\(\$2 Shl const:7\) Shr \(const:core::num::<impl usize>::BITS(=\d+)? Sub(WithOverflow)? core::num::<impl usize>::trailing_zeros\(core::slice::<impl \[T\]>::len\(transmute\(\$1\.shards\.0\.pointer\)\)\)\)(\.0)?\)$"], [], "shard_index is a function of the hash and the (fixed) number of shards")
+    sf = cx.fn(SY + r"SyncTable::shard_for$")
+    cx.flow(sf, sf.origin_local(0), [r"^transmute\(\$1\.shards\.0\.pointer\)\[function::sync::SyncTable::shard_index\(\$1, \$2\)\]$", r"\$1\.shards.*\[function::sync::SyncTable::shard_index\(\$1, \$2\)\]"], [r"\[const:"], "shard_for = shards[shard_index(hash)]")
